@@ -347,6 +347,35 @@ fn minimise_c11(rf: &ReplayFile) -> ReplayFile {
     while progress && n < 20_000 {
         progress = false;
         let mut cands: Vec<AisleScenario> = Vec::new();
+        if sc.other_text.is_some() {
+            let mut c = sc.clone();
+            c.other_text = None;
+            c.ops_c.clear();
+            c.order.clear();
+            cands.push(c);
+        }
+        if !sc.order.is_empty() {
+            let mut c = sc.clone();
+            c.order.clear();
+            cands.push(c);
+        }
+        for i in 0..sc.ops_c.len() {
+            let mut c = sc.clone();
+            c.ops_c.remove(i);
+            cands.push(c);
+        }
+        // halves of the text first (large files)
+        {
+            let lines: Vec<&str> = sc.text.split_inclusive('\n').collect();
+            if lines.len() > 8 {
+                let h = lines.len() / 2;
+                for keep in [&lines[..h], &lines[h..]] {
+                    let mut c = sc.clone();
+                    c.text = keep.concat();
+                    cands.push(c);
+                }
+            }
+        }
         for which in 0..2 {
             let len = if which == 0 { sc.ops_a.len() } else { sc.ops_b.len() };
             for i in 0..len {
